@@ -336,10 +336,16 @@ func (l *linForm) String() string {
 			parts = append(parts, c.String()+"·"+k)
 		}
 	}
-	if l.c.Sign() != 0 || len(parts) == 0 {
-		parts = append(parts, l.c.String())
+	out := strings.Join(parts, " + ")
+	switch {
+	case len(parts) == 0:
+		return l.c.String()
+	case l.c.Sign() > 0:
+		out += " + " + l.c.String()
+	case l.c.Sign() < 0:
+		out += " - " + new(big.Int).Neg(l.c).String()
 	}
-	return strings.Join(parts, " + ")
+	return out
 }
 
 // linRange: the values of l on the path (exact for a single atom).
